@@ -317,7 +317,8 @@ def check_case(case):
 def shard(s):
     acc = core.Acc()
     for case in s:
-        v, calls = check_case(case)
+        with core.istate(case.get("seq", "") + case["kind"]):
+            v, calls = check_case(case)
         acc.states += 1
         acc.traces += 1
         acc.transitions += calls
@@ -372,6 +373,7 @@ def run(tier, seed, t0):
     cases.sort(key=lambda c: -len(c["seq"]) ** 2 * (81 if c.get("assignments") else 1))
     nsh = 16 * 8
     acc = core.pmap(shard, [cases[i::nsh] for i in range(nsh)])
+    acc.merge(core.run_optimized(PROP, tier))      # the rejection battery once more under `python -O`
     return core.finish(
         PROP, tier, seed, acc, t0,
         rule="every word over {K,E,P,G} of length 1..3 and 5..%d (thorough: 1..%d; +5 longer ones) x ALL 81 assignments of those four letters to "
@@ -386,6 +388,11 @@ def run(tier, seed, t0):
              "the ternary reading. non-trivial = words of length>=5 with >=2 letters (shorter ones have kappa -1 by definition); quick uses one of the three paddings per assignment" % (L, L),
         bounds={"L": L, "assignments": 81, "invalid_members": [repr(x) for x in INVALID]},
         assumptions=["kappa itself is judged by C01-C03; here only the identities between entry points"])
+
+
+def opt_shards(tier):
+    return [(shard, [{"kind": "invalid", "seq": "KEPGDRSTYA"}, {"kind": "invalid", "seq": "GGSSGGSSGG"},
+                     {"kind": "word", "seq": "KEPGKE", "assignments": True}, {"kind": "containers", "seq": "KEPGDRSTYAGS"}])]
 
 
 def replay(case):
